@@ -1,6 +1,7 @@
 (* FormatV1.v — C06: the full round-trip theorems of the FORMAT.md codec at the concrete
    primitives of format v1 (SHA-256, X25519 + HKDF-SHA256, AES-256-GCM) and at the block tags
    translated from the source, plus the instances used as non-vacuity examples by props/C06.v. *)
+From MLA Require Import Limit.
 From Coq Require Import String.
 From MLA Require Import Base Stream Blocks Writer RoundTripBlocks RoundTripWriter EncLayer EncWriter
   InstGcm Format FormatProofs FormatBridge FormatScan FormatContent FormatWriterBridge FormatCipher.
@@ -43,7 +44,7 @@ Notation src_wrun FNMAX order :=
 (* header of lib.rs for a layer-less archive: magic, version, layers 0, Option tag None *)
 Definition src_header_plain : bytes := Src.MLA_MAGIC ++ le_bytes 4 Src.MLA_FORMAT_VERSION_prod ++ [0; 0].
 
-Theorem decode_writer_v1_content FNMAX order ops sf rs :
+Theorem decode_writer_v1_content {LIM : Limit} FNMAX order ops sf rs :
   (forall f, Permutation (order f) f) ->
   src_wrun FNMAX order w_init (ops ++ [OFinalize]) = (sf, rs) ->
   Forall (fun r => is_ok r = true) rs -> forallb op_utf8 ops = true ->
@@ -54,7 +55,7 @@ Proof.
   exact (format_decode_writer FNMAX sha order Sha256.len_sha256 Horder ops sf rs Hrun Hok Hutf H64 H32).
 Qed.
 
-Theorem decode_writer_v1_plain CHUNK BLOCK unbr FNMAX order ops sf rs cands :
+Theorem decode_writer_v1_plain {LIM : Limit} CHUNK BLOCK unbr FNMAX order ops sf rs cands :
   (forall f, Permutation (order f) f) ->
   src_wrun FNMAX order w_init (ops ++ [OFinalize]) = (sf, rs) ->
   Forall (fun r => is_ok r = true) rs -> forallb op_utf8 ops = true ->
@@ -71,7 +72,7 @@ Qed.
 (* encrypted: the block stream cut into any pieces [pcs] through the encryption writer model;
    [ks]/[tagc] is AES-256-GCM under kd with the per-chunk nonces (cipher_agrees); the key is
    wrapped for the recipients' public keys rpub :: rpubs with the ephemeral scalar eph *)
-Theorem decode_writer_v1_enc CHUNK BLOCK CIPHERBUF unbr FNMAX order ops sf rs
+Theorem decode_writer_v1_enc {LIM : Limit} CHUNK BLOCK CIPHERBUF unbr FNMAX order ops sf rs
         ks tagc fuel pcs es eph rpub rpubs cpriv cands kd nonce8 :
   0 < CHUNK ->
   (forall f, Permutation (order f) f) ->
@@ -104,7 +105,7 @@ Qed.
 (* the same with the cipher parameters the encryption-layer model is instantiated with (InstGcm.v:
    key stream table of n chunks and tag function over the expanded AES-256 key): no hypothesis on
    the cipher is left *)
-Theorem decode_writer_v1_enc_gcm CHUNK BLOCK CIPHERBUF unbr FNMAX order ops sf rs
+Theorem decode_writer_v1_enc_gcm {LIM : Limit} CHUNK BLOCK CIPHERBUF unbr FNMAX order ops sf rs
         n fuel pcs es eph rpub rpubs cpriv cands kd nonce8 :
   0 < CHUNK ->
   (forall f, Permutation (order f) f) ->
@@ -131,6 +132,8 @@ Proof.
   intros j pt Hj Hpt. apply (gcm_cipher_agrees CHUNK kd nonce8 n Hkd H8); [lia | exact Hpt].
 Qed.
 
+(* the concrete examples below: the production value of BINCODE_MAX_DESERIALIZE (file-local, declared AFTER the theorems) *)
+#[local] Instance EX_LIMIT : Limit := MLAGen.Src.BINCODE_MAX_DESERIALIZE_prod.
 (* ---------- a concrete interleaved call list: 3 files, two open at once, add_file in between,
    footer written in reverse order ---------- *)
 Definition ex2_ops : list wop :=
